@@ -66,14 +66,51 @@ pub fn opcode_case(spec: SpecId, opc: u8, prefix: bool) -> TxCase {
     c
 }
 
+/// (previous spec, route): when set, the probe runs on an Evm that first executed the same probe under the
+/// previous spec and was then switched (route 0: Evm::modify_spec_id, route 1: modify().with_spec_id().build())
+#[derive(Clone, Copy)]
+pub struct Switch(pub SpecId, pub u8);
+fn exec_sw(case: &TxCase, sw: Option<Switch>) -> Outcome {
+    let Some(Switch(prev, route)) = sw else { return exec(case) };
+    let mut c0 = case.clone();
+    c0.spec = spec_name(prev);
+    let r = crate::fw::catch(|| {
+        let mut evm = build_evm(&c0, to_cachedb(&case.world), ());
+        let _ = evm.transact();
+        let mut evm = if route == 0 {
+            evm.modify_spec_id(case.spec());
+            evm
+        } else {
+            evm.modify().with_spec_id(case.spec()).build()
+        };
+        evm.context.evm.inner.env = case.env();
+        evm.transact()
+    });
+    match r {
+        Ok(r) => Outcome::from_result(r),
+        Err(p) => Outcome { class: Class::Fatal, reason: format!("panic: {p}"), gas_used: 0, gas_refunded: 0, output: Bytes::new(), logs: vec![], created: None, state: Default::default() },
+    }
+}
+fn sw_json(sw: Option<Switch>) -> Value {
+    match sw {
+        Some(Switch(p, r)) => json!({"prev": spec_name(p), "route": r}),
+        None => Value::Null,
+    }
+}
+fn sw_from(v: &Value) -> Option<Switch> {
+    Some(Switch(spec_from_name(v.get("prev")?.as_str()?), v.get("route")?.as_u64()? as u8))
+}
 fn check_opcode(case: &TxCase, opc: u8, prefix: bool) -> (Outcome, Vec<Violation>) {
-    let o = exec(case);
+    check_opcode_sw(case, opc, prefix, None)
+}
+fn check_opcode_sw(case: &TxCase, opc: u8, prefix: bool, sw: Option<Switch>) -> (Outcome, Vec<Violation>) {
+    let o = exec_sw(case, sw);
     let spec = case.spec();
     let def = defined(opc, spec);
     let undefined_class = o.class == Class::Halt && (o.reason == "OpcodeNotFound" || o.reason == "NotActivated");
     let all_gas = o.gas_used == case.tx.gas_limit;
     let mut v = vec![];
-    let cj = json!({"kind":"opcode","opcode":opc,"prefix":prefix,"case":case});
+    let cj = json!({"kind":"opcode","opcode":opc,"prefix":prefix,"case":case,"switch":sw_json(sw)});
     let name = format!("0x{opc:02x}");
     if o.class == Class::Invalid || o.class == Class::Fatal {
         v.push(Violation { key: "machinery".into(), msg: format!("probe transaction not executed: {}", o.reason), case: cj });
@@ -248,12 +285,15 @@ pub fn precompile_case(spec: SpecId, target: Address, input: &[u8]) -> TxCase {
 }
 
 fn check_precompile(spec: SpecId, pc_addr: u64, from: SpecId, input: &[u8]) -> (String, Vec<Violation>) {
+    check_precompile_sw(spec, pc_addr, from, input, None)
+}
+fn check_precompile_sw(spec: SpecId, pc_addr: u64, from: SpecId, input: &[u8], sw: Option<Switch>) -> (String, Vec<Violation>) {
     let target = revm::precompile::u64_to_address(pc_addr);
     let case = precompile_case(spec, target, input);
     let base = precompile_case(spec, NEVER, input);
-    let o = exec(&case);
-    let b = exec(&base);
-    let cj = json!({"kind":"precompile","address":pc_addr,"from":spec_name(from),"case":case});
+    let o = exec_sw(&case, sw);
+    let b = exec_sw(&base, sw);
+    let cj = json!({"kind":"precompile","address":pc_addr,"from":spec_name(from),"case":case,"switch":sw_json(sw)});
     let mut v = vec![];
     if o.class != Class::Success || b.class != Class::Success {
         v.push(Violation { key: "machinery".into(), msg: format!("probe did not complete: {:?} {} / {:?} {}", o.class, o.reason, b.class, b.reason), case: cj });
@@ -314,12 +354,12 @@ pub fn replay(case: &Value) -> Vec<Violation> {
         let c: TxCase = serde_json::from_value(case["case"].clone()).unwrap();
         let opc = case["opcode"].as_u64().unwrap() as u8;
         let prefix = case["prefix"].as_bool().unwrap();
-        check_opcode(&c, opc, prefix).1
+        check_opcode_sw(&c, opc, prefix, sw_from(&case["switch"])).1
     } else {
         let c: TxCase = serde_json::from_value(case["case"].clone()).unwrap();
         let addr = case["address"].as_u64().unwrap();
         let from = spec_from_name(case["from"].as_str().unwrap());
-        check_precompile(c.spec(), addr, from, &c.tx.data).1
+        check_precompile_sw(c.spec(), addr, from, &c.tx.data, sw_from(&case["switch"])).1
     }
 }
 
@@ -379,9 +419,62 @@ pub fn run_prop(ctx: &Ctx) -> i32 {
         })
         .collect();
     acc.merge(merge_all(accs));
+    // the same questions on an Evm that ran under another fork first and was then switched
+    {
+        let prevs = [SpecId::FRONTIER, SpecId::BYZANTIUM, SpecId::ISTANBUL, SpecId::BERLIN, SpecId::SHANGHAI, SpecId::CANCUN, SpecId::PRAGUE];
+        let mut sj = vec![];
+        for s in &specs {
+            for prev in prevs {
+                if prev == *s {
+                    continue;
+                }
+                for route in [0u8, 1] {
+                    for p in pcs() {
+                        sj.push((*s, Switch(prev, route), Some((p.addr, p.from, p.input)), 0u8));
+                    }
+                    if route == 0 {
+                        for opc in 0..=255u8 {
+                            sj.push((*s, Switch(prev, route), None, opc));
+                        }
+                    }
+                }
+            }
+        }
+        let accs: Vec<Acc> = sj
+            .par_chunks(64)
+            .map(|ch| {
+                let mut a = Acc::new();
+                for (s, sw, pc, opc) in ch {
+                    a.evaluations += 1;
+                    a.states += 1;
+                    a.transitions += 2;
+                    a.bump("after_spec_switch_cases", 1);
+                    let v = match pc {
+                        Some((addr, from, input)) => {
+                            let (k, v) = check_precompile_sw(*s, *addr, *from, input, Some(*sw));
+                            a.distinct(&("switch", s, sw.0, sw.1, addr, &k));
+                            v
+                        }
+                        None => {
+                            let case = opcode_case(*s, *opc, false);
+                            let (o, v) = check_opcode_sw(&case, *opc, false, Some(*sw));
+                            a.distinct(&("switch", s, sw.0, opc, &o.class, &o.reason));
+                            v
+                        }
+                    };
+                    for mut x in v {
+                        x.msg = format!("on an Evm that ran under {:?} first and was switched by {}: {}", sw.0, if sw.1 == 0 { "modify_spec_id" } else { "the builder" }, x.msg);
+                        a.violation(x);
+                    }
+                }
+                a
+            })
+            .collect();
+        acc.merge(merge_all(accs));
+    }
     let _ = ctx;
     let meta = Meta {
-        rule: "all 256 opcode bytes x all 21 SpecIds x {bare, 17 benign operands} and 20 precompile/non-precompile addresses x all SpecIds; distinct = distinct (spec, opcode, variant, class, reason, gas)".into(),
+        rule: "all 256 opcode bytes x all 21 SpecIds x {bare, 17 benign operands} and 20 precompile/non-precompile addresses x all SpecIds; the same on an Evm that first ran under one of 7 other forks and was then switched (opcodes: Evm::modify_spec_id; precompile addresses: modify_spec_id and the builder); distinct = distinct (spec, opcode, variant, class, reason, gas)".into(),
         assumptions: vec![
             "activation table transcribed from the EIPs; 'undefined' is observed as Halt with the whole gas limit used and HaltReason OpcodeNotFound/NotActivated".into(),
             "CONSTANTINOPLE carries EIP-145/1014/1052 (as the EIPs state); OSAKA/LATEST keep every EOF-only opcode undefined in legacy code".into(),
